@@ -92,10 +92,11 @@ def fixture_of(rid):
     return sid if sid in corpus.manifest()["by_id"] else None
 
 
-def items_for_own_fixtures(limit_values=None, rules=None, enable_disabled=True):
+def items_for_own_fixtures(limit_values=None, rules=None, enable_disabled=True, generic=None):
+    """generic: None, or a stride n: every n-th rule also gets the generic-attribute deviations fixable:false, severity:Warning, disable:true"""
     out = []
     inv = inventory()
-    for rid in sorted(inv):
+    for idx, rid in enumerate(sorted(inv)):
         if rules is not None and rid not in rules:
             continue
         sid = fixture_of(rid)
@@ -105,6 +106,11 @@ def items_for_own_fixtures(limit_values=None, rules=None, enable_disabled=True):
             out.append(universe.mk(sid, (), None, {"rule": {rid: {"disable": False}}}, cfgname=f"{rid}.disable=false"))
         for name, cfg in deviations(rid, limit_values):
             out.append(universe.mk(sid, (), None, cfg, cfgname=name))
+        if generic and idx % generic == 0:
+            en = {"disable": False} if inv[rid]["disable"] else {}
+            out.append(universe.mk(sid, (), None, {"rule": {rid: dict(en, fixable=False)}}, cfgname=f"{rid}.fixable=false"))
+            out.append(universe.mk(sid, (), None, {"rule": {rid: dict(en, severity="Warning")}}, cfgname=f"{rid}.severity=Warning"))
+            out.append(universe.mk(sid, (), "jcl", {"rule": {rid: {"disable": True}}}, cfgname=f"{rid}.disable=true"))
     return out
 
 
